@@ -855,3 +855,86 @@ def implied_literals(f, site, atom_of):
         if len(vs) == 1:
             out[a] = vs.pop()
     return out
+
+
+def element_loops(f, cont_text):
+    """Loops that visit every element of the container rendered as cont_text, whatever their form: range-for over it, an index loop
+    `for (i = 0; i < C.size(); ++i)`, an iterator loop from C.begin() to C.end(), or std::for_each over [C.begin(), C.end()).
+    Yields (loop node, a node of the loop header that is in the CFG)."""
+    ct = cont_text.replace(' ', '')
+    for l in f.walk():
+        k = l.get('k')
+        if k == 'RangeFor' and render(role(l, 'range')).replace(' ', '') == ct:
+            yield l, role(l, 'range')
+        elif k == 'For':
+            cnd = role(l, 'cond')
+            t = render(cnd).replace(' ', '') if cnd is not None else ''
+            inc = role(l, 'inc')
+            up = inc is not None and ((inc.get('k') == 'Un' and inc.get('op') == '++') or (inc.get('k') == 'Call' and inc.get('opc') == '++'))
+            if up and (('<' + ct + '.size()') in t or ('!=' + ct + '.end()') in t or ('!=' + ct + '.cend()') in t):
+                # no early exit
+                if not any(x.get('k') in ('Break', 'Return') for x in walk(role(l, 'body') or {})):
+                    yield l, cnd
+        elif k == 'Call' and l.get('callee') in ('std::for_each',) and len(l.get('c', [])) >= 3:
+            a = [render(x).replace(' ', '') for x in l['c'][:2]]
+            if a[0] in (ct + '.begin()', ct + '.cbegin()') and a[1] in (ct + '.end()', ct + '.cend()'):
+                yield l, l
+
+
+def pairing_with_helpers(F, funcs, is_start, is_end):
+    """Start/end pairing (install/uninstall, acquire/release) that survives the extraction of file-local helpers.
+    is_start(call) / is_end(call) return a key or None.  A function whose start event is not closed on every path of its own body is a
+    START HELPER for that key when it has callers and all of them are in `funcs` (its obligation moves to the callers: their call of the
+    helper is a start event); a function that has an end event and no start event for the key is an END HELPER (a call of it is an end event).
+    Returns a list of (func, start node, key, ok, how) for every start event whose obligation is decided in func."""
+    from issues import must_pass
+    fl = [f for f in funcs if f.cfg() is not None]
+    keyset = {f.key for f in fl}
+    start_h, end_h = {}, {}
+
+    def events(f):
+        st, en = [], []
+        for c in f.walk():
+            if c.get('k') != 'Call':
+                continue
+            k1, k2 = is_start(c), is_end(c)
+            if k1 is not None:
+                st.append((c, k1))
+            if k2 is not None:
+                en.append((c, k2))
+            for ck in F.callee_keys(c):
+                for k_ in start_h.get(ck, ()):
+                    st.append((c, k_))
+                for k_ in end_h.get(ck, ()):
+                    en.append((c, k_))
+        return st, en
+    changed = True
+    rounds = 0
+    while changed and rounds < 4:
+        changed = False
+        rounds += 1
+        for f in fl:
+            st, en = events(f)
+            callers = F.callers.get(f.key, set())
+            local = bool(callers) and all(c in keyset for c in callers)
+            for c, k_ in st:
+                ends = [e['i'] for e, k2 in en if k2 == k_ and e is not c]
+                closed = bool(ends) and must_pass(f.cfg_for(c), c, ends)
+                if not closed and local and k_ not in start_h.get(f.key, set()):
+                    start_h.setdefault(f.key, set()).add(k_)
+                    changed = True
+            for e, k_ in en:
+                if not any(k1 == k_ for c, k1 in st) and k_ not in end_h.get(f.key, set()) and local:
+                    end_h.setdefault(f.key, set()).add(k_)
+                    changed = True
+    out = []
+    for f in fl:
+        st, en = events(f)
+        for c, k_ in st:
+            if k_ in start_h.get(f.key, set()):
+                out.append((f, c, k_, True, 'helper: the obligation is discharged by its callers'))
+                continue
+            ends = [e['i'] for e, k2 in en if k2 == k_ and e is not c]
+            ok = bool(ends) and must_pass(f.cfg_for(c), c, ends)
+            out.append((f, c, k_, ok, '%d closing call(s)' % len(ends)))
+    return out
